@@ -325,6 +325,7 @@ impl TreeSink for RcDom {
     }
 
     fn get_template_contents(&self, target: &Handle) -> Handle {
+        verif_tick!(ProbeTemplate);
         if let NodeData::Element {
             ref template_contents,
             ..
@@ -444,6 +445,7 @@ impl TreeSink for RcDom {
         prev_element: &Self::Handle,
         child: NodeOrText<Self::Handle>,
     ) {
+        verif_tick!(ProbeFosterParent);
         let parent = element.parent.take();
         let has_parent = parent.is_some();
         element.parent.set(parent);
@@ -472,6 +474,7 @@ impl TreeSink for RcDom {
     }
 
     fn add_attrs_if_missing(&self, target: &Handle, attrs: Vec<Attribute>) {
+        verif_tick!(ProbeAddAttrs);
         let mut existing = if let NodeData::Element { ref attrs, .. } = target.data {
             attrs.borrow_mut()
         } else {
@@ -490,10 +493,12 @@ impl TreeSink for RcDom {
     }
 
     fn remove_from_parent(&self, target: &Handle) {
+        verif_tick!(ProbeRemoveFromParent);
         remove_from_parent(target);
     }
 
     fn reparent_children(&self, node: &Handle, new_parent: &Handle) {
+        verif_tick!(ProbeReparent);
         let mut children = node.children.borrow_mut();
         let mut new_children = new_parent.children.borrow_mut();
         for child in children.iter() {
